@@ -19,7 +19,25 @@ def load_harnesses():
         return []
 
 
-def select(pid=None, tier='quick', fn_key=None):
+QUICK_MAX = 120
+
+
+def select(pid=None, tier='quick', fn_key=None, seed=0):
+    out = _select_all(pid, tier, fn_key)
+    if tier == 'quick' and len(out) > QUICK_MAX:
+        # the quick tier runs a seed-chosen sample of the cheap harnesses plus every harness tied to a
+        # recorded finding; the thorough tier runs all of them
+        import random
+        keep = [h for h in out if h.get('expected') == 'fails' or h.get('always')]
+        rest = [h for h in out if not (h.get('expected') == 'fails' or h.get('always'))]
+        rnd = random.Random(seed)
+        rnd.shuffle(rest)
+        out = keep + rest[:max(0, QUICK_MAX - len(keep))]
+        out.sort(key=lambda h: h['name'])
+    return out
+
+
+def _select_all(pid=None, tier='quick', fn_key=None):
     out = []
     for h in load_harnesses():
         if h.get('disabled'):
@@ -155,15 +173,15 @@ def evaluate(h, r):
     return 'fail', '; '.join(r['failed_checks'][:3]) or 'verification failed'
 
 
-def run_property(pid, tier):
+def run_property(pid, tier, seed=0):
     """-> dict(results=[...], violations=[...], undecided=[...], wall_s)"""
     t0 = time.time()
-    hs = select(pid, tier)
-    out = dict(results=[], violations=[], undecided=[], wall_s=0.0, checks=0, harnesses=len(hs))
+    hs = select(pid, tier, seed=seed)
+    out = dict(results=[], violations=[], undecided=[], wall_s=0.0, checks=0, harnesses=len(hs), registered=len(_select_all(pid, 'thorough')))
     if not hs:
         return out
     cdir = RUN.cache_dir()
-    ckey = os.path.join(cdir, f'kani_{pid}_{tier}_{kani_hash()[:12]}.json')
+    ckey = os.path.join(cdir, f'kani_{pid}_{tier}_{seed}_{kani_hash()[:12]}.json')
     if os.path.exists(ckey):
         try:
             return json.load(open(ckey))
